@@ -7,6 +7,7 @@ import (
 	"fmt"
 	"io"
 	"reflect"
+	"sort"
 	"strconv"
 	"strings"
 	"time"
@@ -521,6 +522,15 @@ func registerMeta() {
 		}
 		return errClass(err)
 	})
+	register("config-decodestring-str", "config.decodeString(string, T, v) for a target type T (behind the reflect prefix)", func(a map[string]string) (string, string) {
+		t, ok := dsTargets[a["t"]]
+		if !ok {
+			return clsSkip, ""
+		}
+		v := string(unhx(a["v"]))
+		_, err := config.VerifDecodeString(reflect.TypeOf(""), t, v)
+		return errClass(err)
+	})
 	register("config-decodestring-ptr", "config.decodeString(f, t, data) for a pointer-typed data (reflect prefix)", func(a map[string]string) (string, string) {
 		v, ok := parseVS(a["in"])
 		if !ok {
@@ -718,6 +728,23 @@ func genMeta(r *runner) {
 		}
 	}
 	r.res.Hit("config:exhaustive-key-x-value")
+	// decodeString behind `f.Kind() == String`, per target type, against the Lean model (parser results as oracles)
+	dsNames := make([]string, 0, len(dsTargets))
+	for n := range dsTargets {
+		dsNames = append(dsNames, n)
+	}
+	sort.Strings(dsNames)
+	for _, tn := range dsNames {
+		for _, v := range metaStrings {
+			r.doM(dsTailLine(tn, v), mk("config-decodestring-str", "t", tn, "v", hx([]byte(v))))
+		}
+		r.doM(dsTailLine(tn, "bad value"), mk("config-decodestring-str", "t", tn, "v", hx([]byte("bad value"))))
+	}
+	// config.Normalize against its Lean model: the shape of the value tree (which map[any]any keys are strings)
+	for i := 0; i < r.n(3000); i++ {
+		v := anyVal(4)
+		r.doM("normalize v="+valOf(build(v)), mk("config-normalize", "in", js(v)))
+	}
 	// the reflect prefix of decodeString against the Lean model of reflect: every scalar behind 1..3 pointers / interfaces
 	for _, sc := range scalars {
 		v := sc
@@ -906,4 +933,104 @@ func hookLine(ht, v string) string {
 		q = err == nil
 	}
 	return "hook f=string t=" + t + " empty=" + bit(empty) + " pd=" + bit(pd) + " pi=" + bit(pi) + " cast=1 q=" + bit(q)
+}
+
+var dsTargets = map[string]reflect.Type{
+	"string": reflect.TypeOf(""), "int": reflect.TypeOf(int(0)), "int8": reflect.TypeOf(int8(0)), "int16": reflect.TypeOf(int16(0)),
+	"int32": reflect.TypeOf(int32(0)), "int64": reflect.TypeOf(int64(0)), "uint": reflect.TypeOf(uint(0)), "uint8": reflect.TypeOf(uint8(0)),
+	"uint16": reflect.TypeOf(uint16(0)), "uint32": reflect.TypeOf(uint32(0)), "uint64": reflect.TypeOf(uint64(0)), "float32": reflect.TypeOf(float32(0)),
+	"float64": reflect.TypeOf(float64(0)), "bool": reflect.TypeOf(true), "duration": reflect.TypeOf(time.Duration(0)), "time": reflect.TypeOf(time.Time{}),
+	"decoder": reflect.TypeOf(ptrDecoder{}), "decoderptr": reflect.TypeOf(&ptrDecoder{}), "strings": reflect.TypeOf([]string{}),
+	"map": reflect.TypeOf(map[string]int{}), "struct": reflect.TypeOf(struct{}{}), "intptr": reflect.TypeOf(new(int)),
+}
+
+// dsTailLine: the facts about the target type and the results of the opaque parsers for this value,
+// i.e. what the Lean model of decodeString takes as oracles.
+func dsTailLine(tn, v string) string {
+	t := dsTargets[tn]
+	bit := func(ok bool) string {
+		if ok {
+			return "1"
+		}
+		return "0"
+	}
+	sd := reflect.TypeOf((*config.StringDecoder)(nil)).Elem()
+	impl, pimpl := t.Implements(sd), reflect.PtrTo(t).Implements(sd)
+	dok := !strings.HasPrefix(v, "bad")
+	pok := true
+	switch {
+	case t == reflect.TypeOf(time.Duration(0)):
+		_, e1 := strconv.Atoi(v)
+		_, e2 := time.ParseDuration(v)
+		pok = e1 == nil || e2 == nil
+	case t == reflect.TypeOf(time.Time{}):
+		_, e1 := time.Parse(time.RFC3339Nano, v)
+		_, e2 := time.Parse(time.RFC3339, v)
+		pok = e1 == nil || e2 == nil
+	default:
+		var err error
+		switch t.Kind() {
+		case reflect.Uint, reflect.Uint64:
+			_, err = strconv.ParseUint(v, 10, 64)
+		case reflect.Uint32:
+			_, err = strconv.ParseUint(v, 10, 32)
+		case reflect.Uint16:
+			_, err = strconv.ParseUint(v, 10, 16)
+		case reflect.Uint8:
+			_, err = strconv.ParseUint(v, 10, 8)
+		case reflect.Int, reflect.Int64:
+			_, err = strconv.ParseInt(v, 10, 64)
+		case reflect.Int32:
+			_, err = strconv.ParseInt(v, 10, 32)
+		case reflect.Int16:
+			_, err = strconv.ParseInt(v, 10, 16)
+		case reflect.Int8:
+			_, err = strconv.ParseInt(v, 10, 8)
+		case reflect.Float32:
+			_, err = strconv.ParseFloat(v, 32)
+		case reflect.Float64:
+			_, err = strconv.ParseFloat(v, 64)
+		case reflect.Bool:
+			_, err = strconv.ParseBool(v)
+		}
+		pok = err == nil
+	}
+	kinds := map[reflect.Kind]string{reflect.String: "string", reflect.Int64: "int64", reflect.Float64: "float64", reflect.Bool: "bool", reflect.Ptr: "ptr",
+		reflect.Slice: "slice", reflect.Map: "map", reflect.Struct: "struct", reflect.Int: "int"}
+	tk := kinds[t.Kind()]
+	if tk == "" {
+		tk = "other"
+	}
+	return "dstail tk=" + tk + " str=1 impl=" + bit(impl) + " isptr=" + bit(t.Kind() == reflect.Ptr) + " pimpl=" + bit(pimpl) + " dok=" + bit(dok) + " pok=" + bit(pok)
+}
+
+// valOf describes a value the way the Lean model of config.Normalize sees it.
+func valOf(x any) string {
+	switch v := x.(type) {
+	case map[any]any:
+		parts := []string{}
+		for k, e := range v {
+			flag := "0"
+			if _, ok := k.(string); ok {
+				flag = "1"
+			}
+			parts = append(parts, flag+":"+valOf(e))
+		}
+		sort.Strings(parts)
+		return "a{" + strings.Join(parts, ",") + "}"
+	case map[string]any:
+		parts := []string{}
+		for _, e := range v {
+			parts = append(parts, valOf(e))
+		}
+		sort.Strings(parts)
+		return "m{" + strings.Join(parts, ",") + "}"
+	case []any:
+		parts := []string{}
+		for _, e := range v {
+			parts = append(parts, valOf(e))
+		}
+		return "l[" + strings.Join(parts, ",") + "]"
+	}
+	return "s"
 }
